@@ -304,7 +304,7 @@ def rule_PN(ctx, tier, scope="all", only=None, name=None):
                                 shortfn(bid), shortfn(pname), (" while holding {%s} (poisoning them)" % ", ".join(held)) if held else ""), where=where)
                 continue
     rr.notes.append("auto-classified: %s" % counts)
-    rr.require_floor({"all": 45, "tower": 28, "plugin": 20}[scope] if not only else 3, "classified unwrap sites")
+    rr.require_floor({"all": 45, "tower": 26, "plugin": 20}[scope] if not only else 3, "classified unwrap sites")
     return rr
 
 
